@@ -126,7 +126,10 @@ def process_period(mp_stream: models.MultiPeriodStream,
         unused_tracks.add(trk.pk)
 
     for tkd in data['tracks']:
-        tip: TracksItemPayload = TracksItemPayload(**tkd)
+        try:
+            tip: TracksItemPayload = TracksItemPayload(**tkd)
+        except (AttributeError, KeyError, TypeError, ValueError) as err:
+            return f"Invalid track in period {data['pid']}: {err}"
         adp: models.AdaptationSet | None = None
         if period.pk:
             adp = models.AdaptationSet.get(
